@@ -1177,7 +1177,11 @@ where
             // always true
             if let Some(ablob) = safe.active_blob.take() {
                 let ablob = (*ablob).into_inner();
-                ablob.fsyncdata().await?;
+                if let Err(e) = ablob.fsyncdata().await {
+                    // sync failed: keep the blob active, its records must stay readable
+                    safe.active_blob = Some(Box::new(ASRwLock::new(ablob)));
+                    return Err(e.into());
+                }
                 safe.blobs.write().await.push(ablob).await;
             }
             Ok(())
